@@ -49,6 +49,8 @@ def _cell(args):
         s = list(sv) + [0.0] * (k - rk)
         U = E.ulib(m)[(3 + si + m) % len(E.ulib(m))][1]
         V = E.ulib(n)[(4 + si + n) % len(E.ulib(n))][1]
+        sc = 2.0 ** ((0, -40, 30, -20)[(tid0 // 7 + si + m + n) % 4])     # exact power-of-two scaling of the whole matrix
+        s = [x * sc for x in s]
         A = E.usv(U, s, V)
         fro = math.sqrt(sum(x * x for x in s))
         head = [x for x in s[:R] if x != 0]
@@ -59,7 +61,7 @@ def _cell(args):
         ey = math.sqrt(sum(x * x for x in s[R:]))
         for seed in seeds:
             np.random.seed(seed)
-            detail = {"alg": alg, "shape": [m, n], "R": R, "oversample": P, "iters_or_passes": q, "rank": rk, "s": s, "seed": seed}
+            detail = {"alg": alg, "shape": [m, n], "R": R, "oversample": P, "iters_or_passes": q, "rank": rk, "s": s, "seed": seed, "scale": sc}
             t = rec.new("rand_qsvd" if alg == "rand" else "pass_eff_qsvd", cls, detail)
             with contextlib.redirect_stdout(io.StringIO()):
                 if alg == "rand":
@@ -111,6 +113,7 @@ def run(ctx, replay=None):
         if key in seen:
             continue
         seen.add(key)
+        tid += 7
         jobs.append((tid, st["alg"], st["m"], st["n"], st["R"], st["P"], st["q"], st["rk"], [ctx.seed * 100 + s for s in seeds]))
     # further cells: sketches wider than the matrix, larger shapes, more power iterations / passes
     rng = np.random.default_rng(ctx.seed + 5)
@@ -126,6 +129,7 @@ def run(ctx, replay=None):
         if key in seen:
             continue
         seen.add(key)
+        tid += 7
         jobs.append((tid, alg, m, n, R, P, q, rk, [ctx.seed * 100 + s for s in seeds]))
     recs = par.pmap(_cell, jobs)
     events, info = S.merge(recs)
